@@ -442,3 +442,35 @@ def c17_frame_series_clock(ctx, form):
         res = R[form](a, b)
     ctx.ensure(f"{form}: the series handed in is exactly as it was (data, dates, relative times)", _same_deep(a, sa) and a.time == ta and a.date == da)
     ctx.ensure(f"{form}: the second series exactly as it was", _same_deep(b, sb))
+
+
+@ob("C17.frame_nonfinite", kind="B", cases=[dict(form=k) for k in ("weight-image", "add", "mul", "lt", "resize-shape", "uniform_refinement-1", "subregion-slices", "integrate", "copy", "img_as-float")],
+    funcs=FUNCS, samples=(1, 2),
+    cite="leave every argument (pixel data, metadata ...) exactly as it was",
+    note="bounded: arguments that contain NaN and +-inf pixels (undefined / masked data) - an operation may propagate them into its RESULT but may not 'repair' them in the argument; "
+         "weights given as an Image of the SAME shape as the image (no resized copy in between) included (after seed C17_l)")
+def c17_frame_nonfinite(ctx, form):
+    import contextlib, io, warnings
+    rng = np.random.default_rng(ctx.rng.randrange(1 << 30))
+
+    def mk():
+        arr = 0.05 + rng.random((6, 8))
+        idx = rng.choice(arr.size, 5, replace=False)
+        arr.flat[idx[:3]] = np.nan
+        arr.flat[idx[3]] = np.inf
+        arr.flat[idx[4]] = -np.inf
+        return darsia.ScalarImage(arr, dimensions=[1.0, 1.5], name="x")
+    a, b = mk(), mk()
+    R = {"weight-image": lambda a, b: darsia.weight(a, b), "add": lambda a, b: a + b, "mul": lambda a, b: 2.0 * a, "lt": lambda a, b: a < b,
+         "resize-shape": lambda a, b: darsia.resize(a, shape=(3, 4)), "uniform_refinement-1": lambda a, b: darsia.uniform_refinement(a, -1),
+         "subregion-slices": lambda a, b: a.subregion((slice(1, 5), slice(2, 7))), "integrate": lambda a, b: darsia.Geometry(space_dim=2, num_voxels=a.num_voxels, dimensions=list(a.dimensions)).integrate(a),
+         "copy": lambda a, b: a.copy(), "img_as-float": lambda a, b: a.img_as(float)}
+    sa, sb, ma, mb = a.img.copy(), b.img.copy(), copy.deepcopy(dict(a.metadata())), copy.deepcopy(dict(b.metadata()))
+    barr = b.img
+    with contextlib.redirect_stdout(io.StringIO()), warnings.catch_warnings(), np.errstate(all="ignore"):
+        warnings.simplefilter("ignore")
+        R[form](a, b)
+    same = lambda x, y: x.shape == y.shape and x.dtype == y.dtype and bool(np.array_equal(x, y, equal_nan=True))
+    meta_same = lambda m1, m2: set(m1) == set(m2) and all(bool(np.all(np.asarray(m1[k]) == np.asarray(m2[k]))) if k in ("dimensions", "origin") else m1[k] == m2[k] for k in m1)
+    ctx.ensure(f"{form}: first argument exactly as it was, undefined pixels included", same(a.img, sa) and meta_same(dict(a.metadata()), ma))
+    ctx.ensure(f"{form}: second argument exactly as it was, undefined pixels included", same(b.img, sb) and b.img is barr and meta_same(dict(b.metadata()), mb))
